@@ -729,7 +729,12 @@ func c29CheckTriple(t *rapid.T, rec *stats.Rec, d *c29Dom, family string) {
 		k[i] = c29Key(d, v[i])
 		r[i] = d.render(v[i])
 	}
-	show := func(i int) string { return fmt.Sprintf("%s %s (%#v)", d.name, r[i], k[i]) }
+	show := func(i int) string {
+		if strings.HasPrefix(r[i], d.name) { // sequence renderings already carry the type
+			return fmt.Sprintf("%s (%#v)", r[i], k[i])
+		}
+		return fmt.Sprintf("%s %s (%#v)", d.name, r[i], k[i])
+	}
 
 	var s [3][3]int
 	for i := 0; i < 3; i++ {
